@@ -10,19 +10,50 @@ QUICK_BUDGET = {"states": 900000, "seconds": 1200}
 
 
 def machine_jobs(tier, roots=None, kinds=("entry", "scanner")):
-    """(jobs, results) of the abstract-machine explorations for a tier."""
-    jobs = []
+    """(jobs, results) of the abstract-machine explorations for a tier.
+
+    Scanner bodies are verified first.  The entry-point explorations use the scanner *summary*
+    only for scanners whose contract was proved; a scanner that failed its contract (or calls one
+    that did) is interpreted from its real body there, so the effect of a scanner defect on the
+    grammar properties is seen as well."""
     cfgs = [("B0", "debug")]
     if tier == "thorough":
         cfgs += [("B0", "release"), ("B1", "debug"), ("B2", "debug"), ("B3", "debug"), ("B4", "debug"), ("B5", "debug")]
     th = F.tree_hash()
+    jobs, results = [], []
     for cfg, prof in cfgs:
-        if "entry" in kinds:
-            jobs += R.entry_jobs(cfg, prof, roots=roots)
+        prog = Program(F.get_facts(cfg, prof, th))
+        sj = R.scanner_jobs(prog, cfg, prof)
+        sr = R.run_jobs(sj, budget=QUICK_BUDGET, th=th)
+        failed = set()
+        for j, r in zip(sj, sr):
+            if not r or not r.get("ok") or r.get("budget") or r.get("unanalysable") or any(
+                    v["rule"].startswith("scanner-") or v["rule"].startswith("obligation:") for v in r.get("violations", [])):
+                failed.add(j["root"])
+        # propagate to callers: their proofs assumed the callee's summary
+        changed = True
+        names = {j["root"] for j in sj}
+        byname = {i["npath"]: i for i in prog.insts if i["npath"] in names and i["local"] and i["body"]}
+        while changed:
+            changed = False
+            for n, inst in byname.items():
+                if n in failed:
+                    continue
+                for c, t, _ in prog.callees(inst):
+                    if c is not None and prog.insts[c]["npath"] in failed:
+                        failed.add(n)
+                        changed = True
         if "scanner" in kinds:
-            prog = Program(F.get_facts(cfg, prof, th))
-            jobs += R.scanner_jobs(prog, cfg, prof)
-    results = R.run_jobs(jobs, budget=QUICK_BUDGET, th=th)
+            jobs += sj
+            results += sr
+        if "entry" in kinds:
+            ej = R.entry_jobs(cfg, prof, roots=roots)
+            if failed:
+                for j in ej:
+                    j["no_summary"] = sorted(failed)
+            er = R.run_jobs(ej, budget=QUICK_BUDGET, th=th)
+            jobs += ej
+            results += er
     return jobs, results
 
 
@@ -264,6 +295,8 @@ def C15(tier):
         for v in r.get("violations", []):
             if v["rule"].startswith("spec:") or v["rule"].startswith("hygiene:") or v["rule"].startswith("zero-copy:"):
                 k = (root_kind(j["root"]), v["rule"], v["detail"])
+                if v.get("default_alive") == [False]:
+                    continue  # only on inputs the default configuration rejects: outside C15's claim
                 for on in v.get("options_on") or [()]:
                     allon = tuple(sorted(set(on) | set(preset_on)))
                     (nondef if allon else deflt).setdefault(k, dict(v, job=j, options=allon))
